@@ -106,7 +106,7 @@ func main() {
 func init() {
 	// a deferred closure held in a variable: runCfg keeps the frame mutex locked while it runs the deferred
 	// calls, and the function value made by getFunc locks the frame it was created in when it returns
-	verifProtocolScenarios = append(verifProtocolScenarios, verifScenario{"C06/interp.runCfg/calls:recover/lock:*", func() (bool, string) {
+	verifProtocolScenarios = append(verifProtocolScenarios, verifScenario{"C06/interp.runCfg/calls:recover/lock:free-across-call*", func() (bool, string) {
 		type res struct {
 			out string
 			err error
@@ -128,6 +128,30 @@ func main() {
 			return r.out != want || r.err != nil, fmt.Sprintf("output %q (err %v), compiled Go prints %q", r.out, r.err, want)
 		case <-time.After(5 * time.Second):
 			return true, fmt.Sprintf("Eval does not return within 5s (self-deadlock on the frame mutex); compiled Go prints %q", want)
+		}
+	}})
+}
+
+func init() {
+	// an uncaught panic carrying http.ErrAbortHandler (its logging is suppressed) raised at top level: the
+	// interpreter must stay usable — the next Eval returns
+	verifProtocolScenarios = append(verifProtocolScenarios, verifScenario{"C06/interp.runCfg/calls:recover/lock:released-at-exit*", func() (bool, string) {
+		var buf bytes.Buffer
+		i := New(Options{Stdout: &buf, Stderr: &buf})
+		if err := i.Use(stdlib.Symbols); err != nil {
+			return true, err.Error()
+		}
+		_, err1 := i.Eval("import (\"net/http\"; \"text/template\")\nvar _ = template.Must(nil, http.ErrAbortHandler)")
+		done := make(chan error, 1)
+		go func() {
+			_, err := i.Eval("println(\"still usable\")")
+			done <- err
+		}()
+		select {
+		case err2 := <-done:
+			return err1 == nil || err2 != nil, fmt.Sprintf("first Eval error %v (want the panic as an error), second Eval error %v, output %q", err1, err2, buf.String())
+		case <-time.After(5 * time.Second):
+			return true, fmt.Sprintf("first Eval returned %v; the next Eval on the same interpreter does not return within 5s (a frame mutex was left locked)", err1)
 		}
 	}})
 }
